@@ -21,6 +21,7 @@ def run(ctx):
     R.stop_iteration_discipline(ctx, "C16.4")
     R.carried_buffer(ctx, "C16.5")
     R.size_accounting(ctx, "C16.1")
+    R.exhaustion_guard(ctx, "C16.6")
 
 
 MUTANTS = MUT_C16
